@@ -19,11 +19,11 @@ PID = "C08"
 NAN = float("nan")
 
 
-def _clf(d, table, gen=7, K=2):
+def _clf(d, table, gen=7, K=2, validate=False):
     if d.sym:
-        c = models.StubClassifier(classes=list(range(K)), n_classes=K, gen=gen)
+        c = models.StubClassifier(classes=list(range(K)), n_classes=K, gen=gen, validate=validate)
     else:
-        c = models.real_table_classifier([(row, p) for g, row, p in (table or []) if g == gen], n_classes=K)
+        c = models.real_table_classifier([(row, p) for g, row, p in (table or []) if validate or g == gen], n_classes=K, validate=validate)
     c.classes_ = np.arange(K)
     return c
 
@@ -48,6 +48,9 @@ def _call(d, name, seed, X, y, cand):
     if name == "Quire":
         return P.Quire(classes=[0.0, 1.0], metric="precomputed", random_state=seed).query(
             X, y, candidates=cand, batch_size=1, return_utilities=True)
+    if name in ("ValueOfInformationEER", "MonteCarloEER"):
+        K = getattr(P, name)
+        return K(random_state=seed).query(X, y, _clf(d, table, validate=True), fit_clf=True, candidates=cand, batch_size=1, return_utilities=True)
     raise ValueError(name)
 
 
@@ -55,6 +58,7 @@ SPEC = {  # name: (independent scorer, supports feature-row candidates)
     "RandomSampling": (True, True), "UncertaintySampling[least_confident]": (True, True),
     "UncertaintySampling[margin_sampling]": (True, True), "UncertaintySampling[entropy]": (True, True),
     "QueryByCommittee": (True, True), "CoreSet": (False, True), "GreedySamplingX": (False, True), "Quire": (False, False),
+    "ValueOfInformationEER": (False, False), "MonteCarloEER": (False, False),
 }
 
 
@@ -157,10 +161,14 @@ def _cfg_quire(tier):
     return [dict(name="Quire", n=3)]
 
 
+def _cfg_eer(tier):
+    return [dict(name=nm, n=3) for nm in (("ValueOfInformationEER",) if tier == "quick" else ("ValueOfInformationEER", "MonteCarloEER"))]
+
+
 def _cfg_rep(tier):
     out = []
     for name in SPEC:
-        if name == "Quire":
+        if name in ("Quire", "ValueOfInformationEER", "MonteCarloEER"):
             continue
         for n in ((3,) if tier == "quick" else (3, 4)):
             if name == "Quire" and n > 3:
@@ -189,6 +197,13 @@ HARNESSES = [
                  product_abstraction=True, timeout_ms=30000),
     dual_harness("quire_representation", sc_representation, _cfg_quire, UNITS, required_witnesses=("two_candidates",),
                  product_abstraction=True, timeout_ms=30000),
+    dual_harness("eer_representation", sc_representation, _cfg_eer,
+                 UNITS[:8] + ["skactiveml.pool._expected_error_reduction:ExpectedErrorReduction.query",
+                              "skactiveml.pool._expected_error_reduction:ExpectedErrorReduction._concatenate_samples",
+                              "skactiveml.pool._expected_error_reduction:ValueOfInformationEER._estimate_error_for_candidate",
+                              "skactiveml.pool._expected_error_reduction:MonteCarloEER._estimate_error_for_candidate",
+                              "skactiveml.pool.utils:IndexClassifierWrapper.fit", "skactiveml.pool.utils:IndexClassifierWrapper.partial_fit"],
+                 required_witnesses=("two_candidates",), product_abstraction=True, timeout_ms=30000),
     dual_harness("permutation_equivariance", sc_permutation, _cfg_perm, UNITS[:11], required_witnesses=("ran",), product_abstraction=True),
 ]
 BOUNDS = dict(quick="n = 3 samples, every labeled/unlabeled pattern; candidates None vs unlabeled indices vs their feature rows; every "
